@@ -147,6 +147,8 @@ func CheckC10(c *Ctx) {
 				for _, m := range mods {
 					a[m] = 0
 				}
+			case 5: // few metrics defined
+				a = gen.MixedAssign(r, v)
 			}
 			return a
 		}
@@ -487,7 +489,7 @@ func CheckC12(c *Ctx) {
 		}
 		c.Parallel("raw-steps-"+v.Name, c.Pick(1_000_000, 20_000_000), 2048, func(w *Worker, i int) {
 			r := w.R
-			a := gen.RandomAssign(r, v)
+			a := gen.MixedAssign(r, v)
 			m := steppable[r.Intn(len(steppable))]
 			me := v.Metrics[m]
 			// make a[m] a defined, non-maximal rung; b = next more severe rung
